@@ -123,6 +123,13 @@ def handle (op : String) (args : List String) (impl : String) : Option Verdict :
         | none => false
       | _ => false
     return ⟨m, ok, s!"refreshseq:n={parsed.length}:adoptable={min adoptables.length 3}:panics={ocs.any (· == "panic")}"⟩
+  | "stale", [re] => some <| Id.run do
+    -- B's topology after the refresh is [1,2]: a NEW connection from A = peer 0 must be refused (inside the statement);
+    -- a connection accepted while A was a member is not re-examined (outside the statement: observed, not constrained)
+    let after := connAllowed ⟨[1, 2], 1⟩ .inbound 0
+    let m := if re = "1" then (if after then "delivered:0,delivered:0" else "delivered:0,refused") else "delivered:0,delivered:0"
+    let ok := if re = "1" then impl == "delivered:0,refused" || impl == "refused,refused" else impl == m
+    return ⟨m, ok, s!"stale(observation):reconnect={re}"⟩
   | "cli", [t] => some <| Id.run do
     let some topo := parseTopo t | return bad
     let m := "ok:" ++ showNats topo.peers ++ "/" ++ toString topo.threshold
